@@ -191,6 +191,76 @@ def matchWin (pat : List Nat) (win : List Nat) : Bool := win == pat
 def matchString (pat : List Nat) (rows : List (List Nat)) : List (List Bool) := rolling pat.length (matchWin pat) rows
 def matchStringOld (pat : List Nat) (rows : List (List Nat)) : List (List Bool) := rollingOld pat.length (matchWin pat) rows
 
+/-! ### regular-expression matchers (`string_matcher.py`: `MaskedStringMatcher`,
+`FixedLenRegexMatcher`, `RegexMatcher` and the `construct_*` pattern expansion) -/
+
+/-- one position of a fixed-length pattern: `.` or a set of letters (`A` = singleton, `[AG]`) -/
+inductive Elem where
+  | any
+  | oneOf (cs : List Nat)
+  deriving Repr, DecidableEq
+
+/-- an item of a flexible pattern: one position, or a gap `.{a,b}` -/
+inductive Item where
+  | elem (e : Elem)
+  | gap (a b : Nat)
+  deriving Repr, DecidableEq
+
+def Elem.ok : Elem → Nat → Bool
+  | .any, _ => true
+  | .oneOf cs, c => cs.contains c
+
+/-- SPEC: a window matches a fixed-length pattern position by position -/
+def matchFixed (pat : List Elem) (win : List Nat) : Bool :=
+  win.length == pat.length && (List.zipWith Elem.ok pat win).all id
+
+/-- `construct_fixed_len_regex_matchers`: the first character class is replaced by each of its
+symbols in turn, recursively; a class-free string becomes ONE `MaskedStringMatcher`
+(`none` = masked position, written with `alphabet[0]` in the base sequence) -/
+def expandClasses : List Elem → List (List (Option Nat))
+  | [] => [[]]
+  | .any :: rest => (expandClasses rest).map (none :: ·)
+  | .oneOf cs :: rest => cs.flatMap (fun c => (expandClasses rest).map (some c :: ·))
+
+/-- `MaskedStringMatcher.__call__`: `np.all((window == base) | mask, axis=-1)` -/
+def maskedMatch (alt : List (Option Nat)) (win : List Nat) : Bool :=
+  win.length == alt.length && (List.zipWith (fun a c => a.isNone || a == some c) alt win).all id
+
+/-- `FixedLenRegexMatcher.__call__`: the union of its masked sub-matchers -/
+def fixedMatch (pat : List Elem) (win : List Nat) : Bool := (expandClasses pat).any (maskedMatch · win)
+
+/-- `FixedLenRegexMatcher(...).rolling_window(seqs)` (mode "valid") -/
+def fixedRegex (pat : List Elem) (rows : List (List Nat)) : List (List Bool) := rolling pat.length (fixedMatch pat) rows
+
+/-- `construct_flexible_len_regex_matchers`: every gap `.{a,b}` becomes `n` dots for `n = a..b` -/
+def expandGaps : List Item → List (List Elem)
+  | [] => [[]]
+  | .elem e :: rest => (expandGaps rest).map (e :: ·)
+  | .gap a b :: rest => (List.range (b + 1 - a)).flatMap (fun d => (expandGaps rest).map (List.replicate (a + d) Elem.any ++ ·))
+
+def orRows : List (List Bool) → List (List Bool) → List (List Bool) := List.zipWith (List.zipWith (· || ·))
+
+/-- `RegexMatcher.rolling_window`: one boolean per position; for every masked sub-matcher (of its own
+length) `as_strided` windows over the flat text, re-wrap by the row lengths, and — since the repair —
+clear the positions whose window does not fit in the row; union over the sub-matchers -/
+def regexWith (start : Nat → Option Int) (items : List Item) (rows : List (List Nat)) : List (List Bool) :=
+  let alts := (expandGaps items).flatMap expandClasses
+  alts.foldl (fun out alt =>
+      let w := alt.length
+      let n := rows.flatten.length
+      orRows out (rollingSameWith start w (maskedMatch alt) false (List.replicate (n - (n + 1 - w)) false) rows))
+    (rows.map (fun r => List.replicate r.length false))
+
+def regexMatch := regexWith sameStartNew
+/-- the shipped code never cleared the windows that run into the next row -/
+def regexMatchOld := regexWith (fun _ => none)
+
+/-- SPEC: position `i` of a row is a match iff some expansion of the pattern fits in the row at `i`
+and matches there -/
+def specRegex (items : List Item) (rows : List (List Nat)) : List (List Bool) :=
+  rows.map (fun r => (List.range r.length).map (fun i =>
+    (expandGaps items).any (fun p => decide (i + p.length ≤ r.length) && matchFixed p ((r.drop i).take p.length))))
+
 /-! ### position weight matrix scores (generic in the number type: same summation order) -/
 
 section pwm
